@@ -1013,3 +1013,22 @@ func requestId(r *http.Request, scheme string) *url.URL {
 	id.Scheme = scheme
 	return id
 }
+
+// rawObjectAt returns the idx-th value of the 'object' property of a raw JSON
+// activity as a JSON map, or nil if there is no such embedded value. Explicit
+// JSON nulls only survive in the raw JSON, not in the deserialized value.
+func rawObjectAt(raw map[string]interface{}, idx int) map[string]interface{} {
+	switch o := raw["object"].(type) {
+	case map[string]interface{}:
+		if idx == 0 {
+			return o
+		}
+	case []interface{}:
+		if idx >= 0 && idx < len(o) {
+			if m, ok := o[idx].(map[string]interface{}); ok {
+				return m
+			}
+		}
+	}
+	return nil
+}
